@@ -6,6 +6,7 @@ import (
 	"flag"
 	"fmt"
 	"os"
+	"sort"
 	"strconv"
 	"strings"
 	"time"
@@ -28,6 +29,7 @@ func main() {
 	tests := flag.Bool("tests", false, "load test files too")
 	corpus := flag.String("corpus", "", "thorough: JSON result of the self-validation corpus and extra configurations to embed in the evidence")
 	dumpFuncs := flag.Bool("dump-funcs", false, "print the function inventory of the repository (the reference of the helper normalisation) and exit")
+	dumpSigs := flag.Bool("dump-sigs", false, "print the parameter types of every named module function (reference of the by-type parameter resolution) and exit")
 	noNorm := flag.Bool("no-normalize", false, "debug: analyse the tree without inlining fresh helpers")
 	showNorm := flag.Bool("show-normalized", false, "debug: print the overlay files produced by the helper normalisation and exit")
 	noEvidence := flag.Bool("no-evidence", false, "do not write evidence / replay files into the verif directory (variant runs)")
@@ -95,6 +97,17 @@ func main() {
 		for _, l := range norm.Inlined {
 			fmt.Printf("NOTE inlined fresh helper %s\n", l)
 		}
+	}
+	if *dumpSigs {
+		var ls []string
+		for _, f := range prog.SrcFuncs() {
+			if f.Parent() == nil && f.Synthetic == "" && !prog.IsMockOrGenerated(f) {
+				ls = append(ls, core.SigLine(f))
+			}
+		}
+		sort.Strings(ls)
+		fmt.Println(strings.Join(ls, "\n"))
+		return
 	}
 	if *dump != "" {
 		i := strings.Index(*dump, ":")
